@@ -92,5 +92,8 @@ FIXED.append("fixed: property=C01 7cd054e patch.Add(res, 'Patient.deceased', 'va
 
 FIXED.append("fixed: property=C20 7c95d62 the label Patient.text.div.id is not a FHIRPath (div is a keyword); found by the thorough tier (depth 3 reaches Narrative.div.id)")
 
+FIXED.append("fixed: property=C02 82ef365 Bundle.entry.request.method.value read 'post' for the code POST, Quantity.comparator.value 'less-than' for '<', fhirVersion 'v-1-4-0' for '1.4.0' (kebab-cased enum name instead of the FHIR code)")
+FIXED.append("fixed: property=C02 a7661ae OperationOutcome.issue.code.value (and the 10 other bound codes generated as <Parent>.CodeType) failed with 'complex type ... CodeType can't be cast to system type'")
+FIXED.append("fixed: property=C04 e099019 under TZ=America/St_Johns `@2020-03-08T00:15:00.500-03:30 + 1 day` gave offset -02:30 (time.Parse returns time.Local for an offset the process zone uses, calendar arithmetic then follows its DST rules); same for elements via fhirconv.parseLocation; found by the enumerated time-zone space")
 if __name__ == '__main__':
     write()
